@@ -31,7 +31,11 @@ Definition portable_selexpr (se : selexpr) : bool :=
   | SelExpr e _ win => pe e && match win with Some (WQuery w) => portable_window w | _ => true end
   end.
 Definition portable_holder (h : holder query) : bool :=
-  match h with HEmpty => true | HChain _ => false | HCond c => pe (to_simple_expr c) end.
+  match h with
+  | HEmpty => true
+  | HChain ms => forallb (fun m : bool * expr query => pe (snd m)) ms
+  | HCond c => pe (to_simple_expr c)
+  end.
 Definition portable_tref (t : tref) : bool :=
   match t with
   | TPlain _ => true
@@ -73,9 +77,25 @@ Lemma map_rex_agree es : forallb pe es = true ->
   map (rex is_alpha b1 T1 rq1) es = map (rex is_alpha b2 T2 rq2) es.
 Proof. intros H. rewrite forallb_forall in H. apply map_ext_in. intros e Hin. now apply rex_agree, H. Qed.
 
+Lemma and_or_common o : ck_oper (oper_key (OBin (if o : bool then BOr else BAnd))) = true.
+Proof. destruct o; reflexivity. Qed.
+
+Lemma rchain_agree len ms : forall i, forallb (fun m : bool * expr query => pe (snd m)) ms = true ->
+  rchain is_alpha b1 T1 rq1 len i ms = rchain is_alpha b2 T2 rq2 len i ms.
+Proof.
+  induction ms as [|[o e] ms IH]; intros i H; [reflexivity|]. cbn [forallb snd] in H.
+  apply andb_prop in H as [He Hr]. cbn [rchain]. rewrite (IH _ Hr). f_equal.
+  unfold rchain_member. rewrite (rex_agree _ He).
+  now rewrite (drop_agree T1 T2 Hagree _ _ (portable_shape_key query pq e He) (and_or_common o)).
+Qed.
+
 Lemma rholder_agree kw h : portable_holder h = true ->
   rholder is_alpha b1 T1 rq1 kw h = rholder is_alpha b2 T2 rq2 kw h.
-Proof. destruct h as [|ms|c]; [reflexivity|intros H; discriminate H|]. cbn [portable_holder]. intros H. unfold rholder. now rewrite (rex_agree _ H). Qed.
+Proof.
+  destruct h as [|ms|c]; [reflexivity| |]; cbn [portable_holder]; intros H; unfold rholder.
+  - now rewrite (rchain_agree _ _ _ H).
+  - now rewrite (rex_agree _ H).
+Qed.
 
 Lemma rorder_field_agree e vs : pe e = true ->
   rorder_field is_alpha b1 T1 rq1 e vs = rorder_field is_alpha b2 T2 rq2 e vs.
